@@ -78,7 +78,7 @@ impl Check for C16 {
         "E1 single-node engine: the real datacake-node watch_membership_changes task fed harness-made membership snapshots; subscribers obtained from the real DatacakeHandle::membership_changes at seeded moments, reading with seeded delays and folding joined/left into a set"
     }
     fn rule(&self) -> &'static str {
-        "Cases: 1-7 membership snapshots over node ids {1,2,3,4} (join, leave, rejoin, rejoin on another address; in a third of the cases the nodes live on 2-3 host slots not tied to a node id and a departing node is often replaced, within the same snapshot, by another id on the very same address) at seeded virtual times, 1-3 subscribers attaching before, between or after snapshots and spending 0-40 virtual ms per handled change. In thorough tier all snapshot sequences of length <= 3 over ids {1,2} x 2 address variants with one subscriber at every attach point x {fast, slow} are enumerated first. Real-cluster arm (1 case in 127): 2-4 complete nodes (DatacakeNodeBuilder::connect + store extension) under link holds (short, and long enough for the failure detector), crash/restart, moves to another address, clock jumps; a subscriber attached at node start sums every change; once all views stood still for 2 simulated seconds its sum must equal the membership layer's own view minus the node, 240 quiet simulated seconds after the last fault the layer must describe exactly the running nodes at their current addresses - judged a first time while the nodes that crashed \"until the faults stop\" (up to all but one) are still gone, then again after they came back -, and (also in a second cluster family with harness-made views, anti-entropy switched off and nodes coming back on another address) a level-None write issued on every node after the faults must reach every other live node by direct replication within 4 simulated seconds. Oracle at quiescence (1 s after the last snapshot): each subscriber's folded set (id -> address) equals the last snapshot minus the local node; a monitor that subscribed before the first snapshot and reads at once must have been told `left` with the old address for every disappearance and address change. Non-trivial = >= 2 snapshots that differ. Distinct = hash of (snapshot sequence, subscriber timing)."
+        "Cases: 1-7 membership snapshots over node ids {1,2,3,4} (join, leave, rejoin, rejoin on another address; in a third of the cases the nodes live on 2-3 host slots not tied to a node id and a departing node is often replaced, within the same snapshot, by another id on the very same address) at seeded virtual times, 1-3 subscribers attaching before, between or after snapshots and spending 0-40 virtual ms per handled change. In thorough tier all snapshot sequences of length <= 3 over ids {1,2} x 2 address variants with one subscriber at every attach point x {fast, slow} are enumerated first. Real-cluster arm (1 case in 127): 2-4 complete nodes (DatacakeNodeBuilder::connect + store extension) under link holds (short, and long enough for the failure detector), crash/restart, moves to another address, clock jumps; a subscriber attached at node start sums every change; once all views stood still for 2 simulated seconds its sum must equal the membership layer's own view minus the node, 240 quiet simulated seconds after the last fault the layer must describe exactly the running nodes at their current addresses - judged a first time while the nodes that crashed \"until the faults stop\" (up to all but one) are still gone, then again after they came back -, and (also in a second cluster family with harness-made views, anti-entropy switched off and nodes coming back on another address) a level-None write issued on every node after the faults must reach every other live node by direct replication within 4 simulated seconds; in that second family one running node is then reported as having left to all the others (members may also have been re-named with another data centre, same id and address, during the run) and nothing the others write 3 s later may be delivered to it. Oracle at quiescence (1 s after the last snapshot): each subscriber's folded set (id -> address) equals the last snapshot minus the local node; a monitor that subscribed before the first snapshot and reads at once must have been told `left` with the old address for every disappearance and address change. Non-trivial = >= 2 snapshots that differ. Distinct = hash of (snapshot sequence, subscriber timing)."
     }
     fn assumptions(&self) -> Vec<String> {
         vec![
@@ -130,6 +130,14 @@ impl Check for C16 {
                     if *p != node {
                         sc.events.push(crate::e2::c01::Ev::View { t: mt + rng.gen_range(20..900), node: *p, members: ids.clone() });
                     }
+                }
+            }
+            // half of these cases: a member is named with another data centre from some moment on
+            // (same id, same address)
+            if rng.gen_bool(0.5) {
+                for _ in 0..rng.gen_range(1..=2) {
+                    let node = ids[rng.gen_range(0..ids.len())];
+                    sc.events.push(crate::e2::c01::Ev::DcChange { t: rng.gen_range(100..span), node, dc: ["dc0", "dc1", "elsewhere"][rng.gen_range(0..3)].to_string() });
                 }
             }
             sc.events.sort_by_key(|e| e.t());
@@ -201,6 +209,9 @@ impl Check for C16 {
                     // fault the layer must describe the running nodes at their current addresses
                     if !r.direct_misses.is_empty() {
                         r.out.violate("C16/cluster/live-peer-not-addressed-by-direct-replication", r.direct_misses.join("; "));
+                    }
+                    if !r.direct_departed.is_empty() {
+                        r.out.violate("C16/cluster/departed-peer-still-addressed-by-direct-replication", r.direct_departed.join("; "));
                     }
                     if !r.membership_stale.is_empty() {
                         r.out.violate("C16/real-cluster/membership-does-not-describe-the-running-nodes", format!("240 simulated seconds after the last fault: {}", r.membership_stale.join("; ")));
